@@ -254,19 +254,25 @@ func genRegs() *rapid.Generator[[]regSpec] {
 	})
 }
 
+// genLevel draws a logger level or a severity from what the property quantifies over: the 12 built-in levels and the
+// levels of regs that RegisterLevel will accept (a value outside the built-in range that no earlier registration took;
+// the titles are distinct). Numeric values that are neither are outside the claim: the library may treat them as it likes.
 func genLevel(regs []regSpec, label string) *rapid.Generator[slog.Level] {
 	gens := []*rapid.Generator[slog.Level]{
 		rapid.SampledFrom(vlib.Builtins),
 		rapid.SampledFrom(vlib.Builtins),
-		rapid.Map(rapid.OneOf(rapid.IntRange(-60, 60), rapid.SampledFrom([]int{12, 13, 1 << 20, math.MaxInt64, math.MinInt64})),
-			func(i int) slog.Level { return slog.Level(i) }),
 	}
-	if len(regs) > 0 {
-		vals := make([]slog.Level, len(regs))
-		for i, r := range regs {
-			vals[i] = slog.Level(r.Value)
+	var vals []slog.Level
+	taken := map[int]bool{}
+	for _, r := range regs {
+		if (r.Value >= 0 && r.Value <= int(slog.FailLevel)) || taken[r.Value] {
+			continue
 		}
-		gens = append(gens, rapid.SampledFrom(vals), rapid.SampledFrom(vals))
+		taken[r.Value] = true
+		vals = append(vals, slog.Level(r.Value))
+	}
+	if len(vals) > 0 {
+		gens = append(gens, rapid.SampledFrom(vals), rapid.SampledFrom(vals), rapid.SampledFrom(vals))
 	}
 	return rapid.OneOf(gens...)
 }
